@@ -169,6 +169,15 @@ def projection_traces(rep, tier, rng):
                   label="BoxProjection-design", timeout=3000)
     if tlc.require_ok(des, rep, "BoxProjection design"):
         rep.add_tlc(des)
+    if tier != "quick":
+        # unbounded companion (Apalache / Z3): in-box, idempotent, fixes feasible points, nearest box point -- for ALL integer
+        # points and boxes; machinery error on failure
+        import subprocess
+        r = subprocess.run([common.SPECS + "/apalache/run_generic.sh", "BoxProjectionAll.tla", "All", "NegControl"],
+                           capture_output=True, text=True)
+        rep.coverage["apalache"] = [l for l in r.stdout.splitlines() if l.startswith("APALACHE")]
+        if r.returncode != 0:
+            rep.machinery("apalache check of BoxProjectionAll.tla failed: %s" % r.stdout[-400:])
     gen = tlc.run("BoxProjection.tla", "BoxProjection_gen.cfg", workers=1, label="BoxProjection-instances", coverage=False)
     if not tlc.require_ok(gen, rep, "BoxProjection instances"):
         return [], {}
